@@ -1103,6 +1103,10 @@ def do_getattr(self, obj, name):
             return tuple(n for n, _, _ in obj.ann_fields)
         if name in ("__init__", "__init_subclass__"):
             return Builtin("object." + name, lambda ip, a, k: None)
+        if name == "mro":
+            return Builtin("type.mro", lambda ip, a, k, _o=obj: PList(list(ip.mro(_o))))
+        if name == "__module__":
+            return obj.module.dotted
         self.raise_exc("AttributeError", name)
     if isinstance(obj, ModuleInfo):
         try:
@@ -1156,6 +1160,8 @@ def do_getattr(self, obj, name):
         m = self.methods.get(("class:" + obj.name, name))
         if m is not None:
             return Builtin(obj.name + "." + name, lambda ip, a, k, _m=m: _m(ip, obj, a, k))
+        if name.startswith("__") or name == "mro":
+            self.raise_exc("AttributeError", name)
         raise Unsupported(f"attribute {name} of builtin class {obj.name}")
     elif isinstance(obj, PList):
         cat = "deque" if obj.kind == "deque" else "list"
